@@ -5,6 +5,7 @@
 // After the log line the script registered for that text (if any) runs:
 //   kick,<u> destruct(u)   drop,<u> remove_interactive(u)   ecmd,<u>,<text> u->force(text) (command() efun)
 //   gc get_char()          it input_to()          itn input_to(.., I_NOECHO)      err error(): uncaught
+//   exec  exec(new body, body of this user): replace_interactive
 #include "/include/vcommon.h"
 
 string oid = "?";
@@ -12,6 +13,8 @@ int in_force = 0;   // > 0 while a command() call of this object is running
 
 void create () { seteuid (getuid ()); }
 void set_oid (string s) { oid = s; "/c12/reg"->reg (s, this_object ()); }
+// a fresh body for the connection of user s (exec): same name, commands enabled, registered instead of the old body
+void adopt (string s) { set_oid (s); enable_commands (); add_action ("do_cmd", "", 1); }
 string query_oid () { return oid; }
 
 // text -> token: [a-z0-9] literal, everything else %xx
@@ -34,6 +37,7 @@ void run (string key) {
   foreach (string op in explode (s, ";")) {
     do_op (op);
     if (!this_object ()) return;   // destructed itself: the script stops
+    if (!objectp ("/c12/reg"->get (oid))) return;   // the user (its current body) was destructed: the script stops
   }
 }
 
@@ -109,6 +113,16 @@ void do_op (string s) {
   case "it":
     r = input_to ("got_line");
     VL ("it " + (this_player () ? this_player ()->query_oid () : "?") + " " + r);
+    break;
+  case "exec":  // the connection of this user moves to a fresh body (exec efun); the old body stays behind, not interactive
+    o = "/c12/reg"->get (oid);
+    r = (o && interactive (o)) ? 1 : 0;
+    VL ("exec " + oid + " " + r);
+    if (r) {
+      object nb = new ("/c12/user.c");
+      nb->adopt (oid);
+      exec (nb, o);
+    }
     break;
   case "err":   // uncaught LPC error: longjmp to the top of backend(), the running cycle is aborted
     VL ("throw " + oid);
